@@ -9,6 +9,12 @@
                                               predicted = number of chunks announced by get_n_chunks
      kp <n> <n_jobs> <nsched> { <pos> }*    compute_phase_diagram as it is now (integer chunk size) over the points
                                               0..n-1, f = identity, pool delivering in the order of the schedule
+     nd <s>                                   the point lists handed to Triangulation: skewed plain points, the six
+                                              transformed lists of the symmetric scheme (second coordinate in units of sin(pi/3))
+     kv <n> <n_jobs> <d> <nsched> { <pos> }*  compute_phase_diagram END TO END (cpd_vector) over the points 0..n-1 with the
+                                              vector-valued f(i) = [i*d; ...; i*d + d-1]; prints the returned (d, n) array
+     km <n> <n_jobs> <a> <b> <nsched> { <pos> }*   the same for the a x b matrix-valued f(i)[j][k] = (i*a + j)*b + k (cpd_matrix);
+                                              prints the returned (b, a, n) array
    Output: "key tokens..." lines followed by "end". *)
 open Model
 open Hexio
@@ -75,6 +81,40 @@ let cmd_kp c =
    | Some r -> out "raises" "0"; out "result" (s_list string_of_int r));
   out "serial" (s_list string_of_int (serial (fun x -> x) xs))
 
+let s_pair (x, y) = sp [s_q x; s_q y]
+
+let cmd_nd c =
+  let s = next_nat c in
+  out "plain_nodes" (s_list s_pair (nonsym_nodes s));
+  out "sym_nodes" (s_list (fun l -> s_list s_pair l) (sym_nodes s))
+
+let cmd_kv c =
+  let n = next_int c in
+  let jobs = pos_of_z (next_z c) in
+  let d = next_int c in
+  let sched = next_list c next_nat in
+  let xs = List.init n (fun i -> i) in
+  let pool g tasks = schedule_pool g sched tasks in
+  let f i = List.init d (fun j -> i * d + j) in
+  out "evaluated" (s_list string_of_int (evaluated_points jobs xs));
+  (match cpd_vector f pool jobs xs with
+   | None -> out "raises" "1"
+   | Some data -> out "raises" "0"; out "data" (s_list (fun col -> s_list string_of_int col) data))
+
+let cmd_km c =
+  let n = next_int c in
+  let jobs = pos_of_z (next_z c) in
+  let a = next_int c in
+  let b = next_int c in
+  let sched = next_list c next_nat in
+  let xs = List.init n (fun i -> i) in
+  let pool g tasks = schedule_pool g sched tasks in
+  let f i = List.init a (fun j -> List.init b (fun k -> (i * a + j) * b + k)) in
+  (match cpd_matrix f pool jobs xs with
+   | None -> out "raises" "1"
+   | Some data -> out "raises" "0";
+     out "data" (s_list (fun plane -> s_list (fun col -> s_list string_of_int col) plane) data))
+
 let () =
   iter_lines (fun line ->
       let c = cursor_of_line line in
@@ -86,6 +126,9 @@ let () =
           | "ch" -> cmd_ch c
           | "pm" -> cmd_pm c
           | "kp" -> cmd_kp c
+          | "nd" -> cmd_nd c
+          | "kv" -> cmd_kv c
+          | "km" -> cmd_km c
           | _ -> out "error" ("unknown command " ^ cmd))
        with Failure m -> out "error" m);
       print_endline "end")
